@@ -456,8 +456,11 @@ def finish(ctx: Ctx) -> int:
     }
     if ctx.known_lines:
         ev["known_findings"] = ctx.known_lines
-    os.makedirs(os.path.join(VERIF, "evidence"), exist_ok=True)
-    with open(os.path.join(VERIF, "evidence", ctx.pid + ".json"), "w", encoding="utf8") as f:
+    # evidence/ describes runs of the registered commands against /repo; debugging runs (--only) and runs against a scratch worktree
+    # (seed evaluation, VERIF_REPO) leave their record under replays/ (not committed) so that they never replace it
+    evdir = os.path.join(VERIF, "evidence") if os.path.realpath(REPO) == "/repo" and not getattr(ctx, "only", None) else os.path.join(VERIF, "replays", "scratch-evidence")
+    os.makedirs(evdir, exist_ok=True)
+    with open(os.path.join(evdir, ctx.pid + ".json"), "w", encoding="utf8") as f:
         json.dump(ev, f, ensure_ascii=True, indent=1, default=repr)
         f.write("\n")
     for line in ctx.known_lines:
